@@ -187,7 +187,7 @@ func checkC01(w *World, r *Report) {
 	r.Rule("R01.2", "operand type selection: = and != test node-set, then boolean, then number, then string (XPath §3.4); relational operators compare every non-node-set pair as numbers; an empty node-set makes every comparison false before any comparator runs; node-set comparison is existential; operand order is preserved from the stack to the comparator", 8)
 	r.guard("R01.2", func() { c01TypeSelection(w, r) })
 
-	r.Rule("R01.3", "conversions: boolean(number) is false exactly for ±0 and NaN, boolean(string) is non-emptiness, number(boolean) is 1/0, string(boolean) is true/false, string(number) special-cases 0, ±Infinity; round is floor(x+0.5)", 6)
+	r.Rule("R01.3", "conversions: boolean(number) is false exactly for ±0 and NaN, boolean(string) is non-emptiness, number(boolean) is 1/0, string(boolean) is true/false, string(number) special-cases 0, ±Infinity; round is floor(x), plus one iff the fraction is at least ½", 6)
 	r.guard("R01.3", func() { c01Conversions(w, r) })
 
 	r.Rule("R01.4", "function table: for every XPath 1.0 core function present, key = symbol name, declared argument checkers and return checker equal the §4 signature, the body's own verifyArgNumAndTypes list agrees, the body reads only declared arguments, and the result is built from the defining stdlib operation on the arguments in order", 25)
@@ -860,28 +860,58 @@ func c01Conversions(w *World, r *Report) {
 		ok := got["zero"] == "0" && got["+inf"] == "Infinity" && got["-inf"] == "-Infinity"
 		r.Check(ok, "R01.3", "numDatum.Literal special cases", fd.Pos(), "±0→\"0\", +∞→\"Infinity\", −∞→\"-Infinity\"", fmt.Sprintf("string(number) special cases are %v", got))
 	}
-	// round
+	// round: floor(x), plus one when the fraction is at least one half (ties towards +∞).
+	// floor(x + 0.5) is NOT accepted: x + 0.5 rounds before the floor (0.49999999999999994 → 1,
+	// odd integers above 2^52 move to the next even one).
 	{
-		f := w.Func("xpath", "round")
-		fd, p := w.FuncDecl(f)
-		ok := false
-		ast.Inspect(fd.Body, func(n ast.Node) bool {
-			ce, isC := n.(*ast.CallExpr)
-			if !isC || calleeOf(p, ce) == nil || calleeOf(p, ce).FullName() != "math.Floor" {
-				return true
+		f := w.SSAFunc(w.Func("xpath", "round"))
+		if f == nil {
+			panic(undecided{"xpath.round"})
+		}
+		var floor *ssa.Call
+		imprecise := false
+		for _, b := range f.Blocks {
+			for _, in := range b.Instrs {
+				c, ok := in.(*ssa.Call)
+				if !ok || c.Call.StaticCallee() == nil || c.Call.StaticCallee().String() != "math.Floor" {
+					continue
+				}
+				if _, isSum := c.Call.Args[0].(*ssa.BinOp); isSum {
+					imprecise = true
+				} else {
+					floor = c
+				}
 			}
-			if be, isB := ast.Unparen(ce.Args[0]).(*ast.BinaryExpr); isB && be.Op == token.ADD {
-				for _, side := range []ast.Expr{be.X, be.Y} {
-					if v := ConstOf(p, side); v != nil {
-						if f, _ := constant.Float64Val(constant.ToFloat(v)); f == 0.5 {
-							ok = true
+		}
+		half, plusOne := false, false
+		if floor != nil {
+			x := floor.Call.Args[0]
+			for _, b := range f.Blocks {
+				for _, in := range b.Instrs {
+					bo, ok := in.(*ssa.BinOp)
+					if !ok {
+						continue
+					}
+					isConst := func(v ssa.Value, want float64) bool {
+						c, ok := v.(*ssa.Const)
+						if !ok || c.Value == nil {
+							return false
 						}
+						fv, _ := constant.Float64Val(constant.ToFloat(c.Value))
+						return fv == want
+					}
+					if bo.Op == token.GEQ && isConst(bo.Y, 0.5) {
+						if d, ok := bo.X.(*ssa.BinOp); ok && d.Op == token.SUB && d.X == x && d.Y == ssa.Value(floor) {
+							half = true
+						}
+					}
+					if bo.Op == token.ADD && bo.X == ssa.Value(floor) && isConst(bo.Y, 1) {
+						plusOne = true
 					}
 				}
 			}
-			return true
-		})
-		r.Check(ok, "R01.3", "round", fd.Pos(), "floor(x + 0.5)", "round() is not computed as floor(x + 0.5): XPath §4.4 rounds ties towards positive infinity (round(-2.5) = -2); truncation away from zero gives -3")
+		}
+		r.Check(floor != nil && half && plusOne && !imprecise, "R01.3", "round", f.Pos(), "floor(x), +1 iff x − floor(x) ≥ 0.5", "round() is not computed as floor(x) plus one when the fraction is at least ½ (ties towards +∞, XPath §4.4): truncation away from zero gives round(-2.5) = -3, and floor(x + 0.5) gives round(0.49999999999999994) = 1")
 	}
 }
 
